@@ -98,6 +98,12 @@ impl Import {
         let path = Path::new(src);
         let attempted_path = Path::new(str_part);
         let path = path.parent().context("no parent")?.join(attempted_path);
+        // `a`, `./a` and `lib/./a` are the same module: the path is the compile-time registry key
+        // and the key of the run-time module cache, so drop every `.` component.
+        let path = path
+            .components()
+            .filter(|component| !matches!(component, std::path::Component::CurDir))
+            .collect();
         Ok(path)
     }
 }
